@@ -952,6 +952,10 @@ def gen_case(rng, cid, py_builtins, stats):
             opts += [meth("double"), meth("bump", iv), ["bin", "Add", R, iv]]
         elif kind == "xfloat":
             opts += [["bin", "Mul", R, ["int", 2]], ["bin", "Add", R, iv]]
+        elif kind == "odict":
+            # the iteration order of the dict is part of its value
+            return r.choice([["call", ["name", "repr"], [R], [], []], ["call", ["name", "repr"], [R], [], []],
+                             ["call", ["name", "list"], [R], [], []], ["call", ["name", "list"], [meth("values")], [], []]])
         return r.choice(opts)
 
     def gen_probes(i):
